@@ -259,6 +259,8 @@ def default_for(engine, ty):
     if re.match(r'^(std::collections::)?(hash_set::)?HashSet<', t) and getattr(engine.env, 'symbolic_maps', False):
         from symex import AMapV
         return AMapV(is_set=True)
+    if t.split('<')[0].split('::')[-1] in ('BuildHasherDefault', 'RandomState'):
+        return Opaque('hasher')
     if t == 'String':
         return Opaque('""')
     d = engine.env.default_of(engine, t)
@@ -423,6 +425,11 @@ def dispatch(engine, st, callee, args, dest_ty):
             fns2 = [f for f in fns if engine.prog.impl_header(f)[0] is None]
             if len(fns2) == 1:
                 return engine.exec_fn(st, fns2[0], args)
+            # same type name in two modules (models::solution::tour::Tour vs algorithms::lkh::tour::Tour): use the module path
+            mod_path = '/'.join(segs[:-2])
+            fns3 = [f for f in (fns2 or fns) if mod_path and (mod_path + '.rs') in str(f.impl_loc)]
+            if len(fns3) == 1:
+                return engine.exec_fn(st, fns3[0], args)
     try:
         fn = engine.prog.find_free(name)
     except Exception:
@@ -1054,6 +1061,9 @@ def std_path(engine, st, name, args, dest_ty):
             v = default_for(engine, re.sub(r'^&mut\s+', '', (dest_ty or '').strip()))
         mp.entries.append((key, v))
         return RefV(mp, len(mp.entries) - 1, True)
+    if ('HashSet' in name or 'HashMap' in name) and last in ('with_hasher', 'with_capacity_and_hasher') and getattr(engine.env, 'symbolic_maps', False):
+        from symex import AMapV
+        return AMapV(is_set='HashSet' in name)
     if ('HashSet' in name or 'HashMap' in name) and last in ('new', 'default', 'with_capacity') and getattr(engine.env, 'symbolic_maps', False) \
             and not (args and type(deref_all(args[0])).__name__ in ('AMapV', 'ASetV')):
         from symex import AMapV
